@@ -140,6 +140,11 @@ func genKeySpec(t *tape.Tape) *KeySpec {
 		size := refcose.CoordSize(crv)
 		ks.Kty, ks.Crv, ks.Pair = refcose.KtyEC2, &crv, kp
 		ks.X, ks.Y = padTo(priv.X.Bytes(), size), padTo(priv.Y.Bytes(), size)
+		if (len(priv.X.Bytes()) < size || len(priv.Y.Bytes()) < size) && t.Bool(1, 3, "keyspec.xy.trim") {
+			// a peer that writes coordinates as its big-number library hands
+			// them out (leading zero octets dropped): within the curve's size
+			ks.X, ks.Y = priv.X.Bytes(), priv.Y.Bytes()
+		}
 		if t.Bool(2, 3, "keyspec.private") {
 			ks.D = padTo(priv.D.Bytes(), size)
 			if t.Bool(1, 4, "keyspec.d.trim") {
